@@ -10,6 +10,17 @@
 open Model
 open Conv
 
+(* Which variant of the model mirrors the code under test (Model/SmtSer.v, [variant]):
+     Cur = /repo as it is;
+     Fix = /repo with patches/0003 .. 0015 applied (writer: 0014 reserved words quoted, 0015 set-info; reader, C14: the others).
+   C14's driver uses this constant too: flip it here, once, when the patches are committed. *)
+let code_variant : variant = Cur
+let ser = ser code_variant
+let ser_cmd = ser_cmd code_variant
+let escape_id = escape_id code_variant
+let is_simple_id = is_simple_id code_variant
+let name_ok = name_ok code_variant
+
 (* result lines are tab separated, one per case: no raw control characters in key / detail *)
 let clean (s : string) : string =
   let b = Buffer.create (String.length s) in
